@@ -30,7 +30,7 @@ ID = "C18"
 MANIFEST = {
     "technique": "property-based testing of histories (Hypothesis): generated layouts wrapped in VirtualArray at random nodes x generator behaviours x cache behaviours x operation sequences against the eager twin; generated partitionings x positional operations / repartitionings against the concatenated value; the same at the Python level (ak.virtual, ak.partitioned, ak.repartition) on the awkward._ext emulation",
     "level_text": "Generated-input exploration at the C++ level (libawkward through the /verif bridge) and at the Python level (unmodified src/awkward on the awkward._ext emulation). Virtual part: a type-directed generator draws a layout; 1..3 nodes (root, inner, nested) are wrapped in VirtualArray whose ArrayGenerator/ArrayCache call back into Python; generator behaviours correct / raises on drawn calls / shorter or longer than the declared length / other than the declared form; cache behaviours none / keep / never stores / evicts on a drawn schedule / weak reference lost; 1..8 (thorough: 1..16) catalogue operations (also on lazy results of earlier steps) must give the eager twin's value and success/error class; with length and form declared len/type/form/range/field slicing must not invoke the generator; a declaration mismatch must raise whenever the generator ran and a rejected array must never be readable afterwards; after a failed or evicted generation the next read must be right; cache entries must hold the true value of their own key. Partition part: every split of a value into 1..4 partitions (empty ones included) with independent encodings; getitem_at, getitem_range (any step), tojson, len, partitionid_index_at, start/stop/stops and repartition (incl. trailing empty partitions) must agree with the concatenated value. Python level: ak.virtual(generate, form, length, cache, cache_key) at the root or as a field of a RecordArray x the same generator behaviours x cache 'new' / None / a mapping that never keeps / evicts on a drawn schedule, and ak.partitioned([...]) of 1..4 pieces, under len, ak.type, to_list, a[i], a[slice], a[int array], a[mask], a[field], ak.num, ak.flatten, ak.sum, a+1, ak.is_none, ak.materialized, ak.to_json, ak.fields, ak.partitions, ak.repartition(int / list / None), compared with the eager concatenated ak.Array under the same call. Held on everything generated outside the four recorded known findings (a generated array longer than declared is accepted; the form predicted for a lazy range slice ignores that a BitMaskedArray below a regular/record/masked node becomes a ByteMaskedArray; nested VirtualArrays predict slice forms as if their nodes were concrete; a[..., newaxis] through a VirtualArray over a RecordArray puts the new axis inside the fields).",
-    "level_note": "Trusted: the /verif bridge, akshim.virtual and the rest of the awkward._ext emulation (a re-statement of PyArrayGenerator/PyArrayCache and of the pybind11 binding, which cannot be compiled here: src/python/virtual.cpp and partition.cpp themselves are not executed), akmodel.decode as the reader of results. Not decided: thread interleavings (every history is a single-threaded schedule owned by the harness: concurrent generation/eviction is out of reach), ptr_lib='cuda', a cache whose weak reference dies at the Python level (ak.Array keeps its caches alive; exercised at the C++ level only). At the Python level operations that reduce or restructure below the top level are compared on canonically encoded pieces only, reducers at axis=None only, and the order in which ak.flatten(axis=None) lists record fields is not compared (unspecified); steps that need the ArrayBuilder emulation are skipped and counted; type strings of partitioned arrays are not compared (merging pieces turns regular dimensions into var and leaves unions unsimplified: a matter of merge, not of the value). SliceGenerator is exercised through the lazy results libawkward builds itself, not constructed directly with contradicting declarations. When the eager array refuses to sort strings at an outer axis the virtual twin is not required to refuse (the refusal is decided by purelist_parameter, which a lazily carried VirtualArray answers without a form).",
+    "level_note": "Trusted: the /verif bridge, akshim.virtual and the rest of the awkward._ext emulation (a re-statement of PyArrayGenerator/PyArrayCache and of the pybind11 binding, which cannot be compiled here: src/python/virtual.cpp and partition.cpp themselves are not executed), akmodel.decode as the reader of results. Not decided: thread interleavings (every history is a single-threaded schedule owned by the harness: concurrent generation/eviction is out of reach), ptr_lib='cuda', a cache whose weak reference dies at the Python level (ak.Array keeps its caches alive; exercised at the C++ level only). At the Python level operations that reduce or restructure below the top level are compared on canonically encoded pieces only, reducers at axis=None only, and the order in which ak.flatten(axis=None) lists record fields is not compared (unspecified); steps that need the ArrayBuilder emulation are skipped and counted; type strings of partitioned arrays are not compared (merging pieces turns regular dimensions into var and leaves unions unsimplified: a matter of merge, not of the value). SliceGenerator is exercised through the lazy results libawkward builds itself, not constructed directly with contradicting declarations. When the eager array refuses to sort strings at an outer axis the virtual twin is not required to refuse (the refusal is decided by purelist_parameter, which a lazily carried VirtualArray answers without a form). The Python-level partitioned steps include concatenation of partitioned arrays (value, len, item), pad_none / num / reducers / sort / argsort at positive and negative axes (sorting on option-free types only: option data is C06's recorded finding), reducers without an axis, and index arrays of every integer width.",
 }
 RULE = ("case = whole history. virtual: description + wrappers (path, declared form/length, generator behaviour) + cache behaviour + 1..8 steps; "
         "non-trivial = some wrapper's generator ran at least twice (a re-generation after an eviction, a cache that does not keep, or a failed generation) "
